@@ -34,6 +34,8 @@ pub fn generic_replay(case: &Value) -> Option<String> {
         Some("parse") => props::c05::replay(case),
         Some("tree") => props::c06::replay(case),
         Some("prep") => props::c07::replay(case),
+        Some("c02big") => props::c02::replay_big(case),
+        Some("prep_tree") => props::c07::replay_tree(case),
         Some("reject") => props::c14::replay(case),
         Some("cache") => props::c04::replay(case),
         Some("canon") => props::c09::replay(case),
